@@ -61,7 +61,11 @@ FINISH = dict(
          "histories (catalogue + random, 3..8 steps) of edits / restarts / amnesia / synchronisations of one named "
          "endpoint with injected faults; every synchronisation compared with Model/AccountMulti.lean (requests, every "
          "endpoint record, saved file) and judged: other CAs receive nothing, other records unchanged, roll-over "
-         "verifies under the key that CA holds; non-trivial (M) = another endpoint is registered at that time.",
+         "verifies under the key that CA holds; non-trivial (M) = another endpoint is registered at that time. Faults of M "
+         "include answers lost AFTER the CA processed the request (keyChange / contact update / newAccount: the CA's record "
+         "moves without a 2xx; the model's ghost of the key each CA holds is compared with the real CA after every "
+         "synchronisation) and refusals of the account query that precedes a roll-over; every POST every CA of M received is "
+         "judged by Spec.C04Lost.holds (strict, except between an UNANSWERED keyChange request and the first answered request).",
 )
 
 KEY_TYPES = ["ecdsa_p256", "ecdsa_p384", "ecdsa_p521", "ed25519", "ed448", "rsa2048", "rsa4096"]
@@ -1280,6 +1284,8 @@ def run(ctx):
         "the key / algorithm / contact-type validators of to_generic are parameters of the model's load; only "
         "refusals that do not depend on OpenSSL's DER parser are compared",
         "removing the external account binding from the configuration is not a 'changed binding' (nothing is sent)",
+        "random histories of part M do not edit the key type again while a roll-over whose answer was lost is "
+        "unrecovered (that double fault is the catalogue history / known finding rollover-lost-then-key-edited)",
     ]
     return ctx.finish(extra={"notes": list(ctx.notes)}, **FINISH)
 
